@@ -48,7 +48,7 @@ type c18ValRef struct {
 
 // c18CheckProof checks a proof for origRoot. prunedWant lists the cells of the original tree that must be replaced
 // (nil: do not check the exact set). It returns the proof body.
-func (e *c18Env) checkProof(what string, proof []byte, origRoot *boc.Cell, refH *c18Hasher, prunedWant map[*boc.Cell]bool) *boc.Cell {
+func (e *c18Env) checkProof(what string, proof []byte, origRoot *boc.Cell, refH *c18Hasher, prunedWant map[string]bool) *boc.Cell {
 	e.distinct[string(proof)] = true
 	orig, err := refH.hashDepth(origRoot, 0)
 	if err != nil {
@@ -110,7 +110,9 @@ func (e *c18Env) checkProof(what string, proof []byte, origRoot *boc.Cell, refH 
 		}
 	}
 	// parallel walk
-	prunedGot := map[*boc.Cell]bool{}
+	// pruning is per POSITION (path of reference indexes from the root): a cell that occurs at several positions may be
+	// pruned at one of them and present at another
+	prunedGot := map[string]bool{}
 	var cmp func(o, p *boc.Cell, path string)
 	cmp = func(o, p *boc.Cell, path string) {
 		if p.CellType() == boc.PrunedBranchCell && o.CellType() != boc.PrunedBranchCell {
@@ -125,7 +127,7 @@ func (e *c18Env) checkProof(what string, proof []byte, origRoot *boc.Cell, refH 
 			if pn != 288 || !bytes.Equal(pd, w) || len(p.Refs()) != 0 {
 				e.rep.errorf("%s: pruned branch at %s holds %x (%d bits, %d refs), the replaced sub-tree needs %x; proof %x", what, path, pd, pn, len(p.Refs()), w, proof)
 			}
-			prunedGot[o] = true
+			prunedGot[path] = true
 			return
 		}
 		od, on := c18Data(o)
@@ -143,12 +145,12 @@ func (e *c18Env) checkProof(what string, proof []byte, origRoot *boc.Cell, refH 
 	if prunedWant != nil {
 		for c := range prunedWant {
 			if !prunedGot[c] {
-				e.rep.errorf("%s: sub-tree %s should be pruned but is present (or unreachable); proof %x", what, c18Dump(c), proof)
+				e.rep.errorf("%s: the sub-tree at %s should be pruned but is present (or unreachable); proof %x", what, c, proof)
 			}
 		}
 		for c := range prunedGot {
 			if !prunedWant[c] {
-				e.rep.errorf("%s: sub-tree %s is pruned but should be present; proof %x", what, c18Dump(c), proof)
+				e.rep.errorf("%s: the sub-tree at %s is pruned but should be present; proof %x", what, c, proof)
 			}
 		}
 	}
@@ -225,10 +227,11 @@ func c18RunDict[K fixedSize, V any](e *c18Env, name string, keys []K, vals []V, 
 		if !reflect.DeepEqual(val, vals[i]) {
 			e.rep.errorf("%s: returned value %v, want %v", kw, val, vals[i])
 		}
-		wantPruned := map[*boc.Cell]bool{}
+		sib := map[*boc.Cell]bool{}
 		for _, s := range w0.siblings {
-			wantPruned[s] = true
+			sib[s] = true
 		}
+		wantPruned := c18Positions(dict, sib)
 		body := e.checkProof(kw, proof, dict, refH, wantPruned)
 		if body == nil {
 			continue
@@ -494,41 +497,38 @@ func (e *c18Env) partC(thorough bool) {
 					return
 				}
 				cur := prover.Cursor()
-				chosen := map[*boc.Cell]bool{}
+				chosen := map[string]bool{}
 				for i, nd := range nodes {
 					if set>>uint(i)&1 == 0 {
 						continue
 					}
 					c := cur
+					pos := "body"
 					for _, k := range nd.path {
 						c = c.Ref(k)
+						pos = fmt.Sprintf("%s/%d", pos, k)
 					}
 					c.Prune()
-					chosen[nd.c] = true
+					chosen[pos] = true
 				}
 				proof, err := prover.CreateProof(cur)
 				if err != nil {
 					e.rep.errorf("%s: CreateProof: %v", what, err)
 					return
 				}
-				// expected pruned cells: chosen ones that are reachable without passing through another chosen one
-				want := map[*boc.Cell]bool{}
-				var reach func(c *boc.Cell)
-				vis := map[*boc.Cell]bool{}
-				reach = func(c *boc.Cell) {
-					if chosen[c] {
-						want[c] = true
+				// expected pruned positions: the chosen ones that are reachable without passing through another chosen one
+				want := map[string]bool{}
+				var reach func(c *boc.Cell, pos string)
+				reach = func(c *boc.Cell, pos string) {
+					if chosen[pos] {
+						want[pos] = true
 						return
 					}
-					if vis[c] {
-						return
-					}
-					vis[c] = true
-					for _, r := range c.Refs() {
-						reach(r)
+					for i, r := range c.Refs() {
+						reach(r, fmt.Sprintf("%s/%d", pos, i))
 					}
 				}
-				reach(tree)
+				reach(tree, "body")
 				e.checkProof(what, proof, tree, newC18Hasher(), want)
 			}()
 		}
@@ -549,4 +549,21 @@ func TestVerifStandin_C18_Proofs(t *testing.T) {
 	b := e.cases
 	e.partC(thorough)
 	t.Logf("cases: A %d, B %d, C %d", a, b-a, e.cases-b)
+}
+
+// c18Positions returns the positions ("body/i/j...") at which the given cells occur in the tree under root
+func c18Positions(root *boc.Cell, cells map[*boc.Cell]bool) map[string]bool {
+	out := map[string]bool{}
+	var walk func(c *boc.Cell, pos string)
+	walk = func(c *boc.Cell, pos string) {
+		if cells[c] {
+			out[pos] = true
+			return
+		}
+		for i, r := range c.Refs() {
+			walk(r, fmt.Sprintf("%s/%d", pos, i))
+		}
+	}
+	walk(root, "body")
+	return out
 }
